@@ -575,7 +575,7 @@ Proof. vm_compute. repeat split; reflexivity. Qed.
 
 (* seed mod 4 = 2: nothing equals anything, not even itself.  Every lookup
    misses: the inserts into the full map are rejected (their arguments destroyed
-   once), remove / get_mut find nothing, IndexMut panics (15 leaked), and after
+   once: the value first, then the key - parameters die in reverse order), remove / get_mut find nothing, IndexMut panics (15 leaked), and after
    retain made room a DUPLICATE key of class 5 is stored (ids 1 and 13) *)
 Example C17_example_history_never_equal :
   mrun (env_map (C17_sc_adv 6)) false C17_ops1 (w_of m3) =
@@ -583,7 +583,7 @@ Example C17_example_history_never_equal :
   match mfinal (env_map (C17_sc_adv 6)) false C17_ops1 (w_of m3) with
   | Some wf => owned (env_map (C17_sc_adv 6)) (self wf) = [1; 2; 13; 14]%N /\
                mouts (env_map (C17_sc_adv 6)) false C17_ops1 (w_of m3) = [12]%N /\
-               dropped (log wf) = [7; 8; 10; 11; 3; 4; 5; 6]%N
+               dropped (log wf) = [8; 7; 11; 10; 3; 4; 5; 6]%N
   | None => False
   end.
 Proof. vm_compute. repeat split; reflexivity. Qed.
